@@ -428,7 +428,7 @@ func c09(c *Ctx) {
 		c.R.Count(fmt.Sprintf("points.%s=%d", sc.Name, len(points)))
 		// the model side: the observed op list must run under the storage discipline
 		tb, _ := os.ReadFile(tracef)
-		c09ModelCheck(c, sc.Name, ref, string(tb), preObjs)
+		c09ModelCheck(c, sc.Name, ref, string(tb), preObjs, base)
 		// sample the crash points in quick mode (always keep the first and last occurrence of every label)
 		sel := points
 		if len(points) > maxPerScenario {
@@ -503,10 +503,25 @@ func c09(c *Ctx) {
 // c09ModelCheck replays the traced file-system operations of the uninterrupted run in the Lean
 // storage model: every rename/link into objects/ must carry content hashing to the target name
 // (the harness supplies the hash of the file now sitting at the target).
-func c09ModelCheck(c *Ctx, name, dir, trace string, preObjs map[string]string) {
+func c09ModelCheck(c *Ctx, name, dir, trace string, preObjs map[string]string, base string) {
 	var ops []string
 	for o, h := range preObjs {
 		ops = append(ops, "have:objects:"+o+":"+h)
+	}
+	// files of the temporary areas that exist before the run and are a second NAME (hard link) of an object
+	for _, ar := range []string{"incomplete", "tmp"} {
+		ents, _ := os.ReadDir(filepath.Join(base, ".git", "lfs", ar))
+		for _, e := range ents {
+			fi, err := os.Stat(filepath.Join(base, ".git", "lfs", ar, e.Name()))
+			if err != nil || fi.IsDir() {
+				continue
+			}
+			for o, h := range preObjs {
+				if oi, err := os.Stat(filepath.Join(base, ".git", "lfs", "objects", o[0:2], o[2:4], o)); err == nil && os.SameFile(fi, oi) {
+					ops = append(ops, fmt.Sprintf("link:objects:%s:%s:%s:%s", o, ar, e.Name(), h))
+				}
+			}
+		}
 	}
 	for _, l := range strings.Split(trace, "\n") {
 		f := strings.Fields(l)
@@ -545,6 +560,9 @@ func c09ModelCheck(c *Ctx, name, dir, trace string, preObjs map[string]string) {
 			}
 		case "unlink":
 			ops = append(ops, "unlink:"+area(f[1])+":"+filepath.Base(f[1]))
+		case "write": // an existing file was opened for writing (download resume: truncate and/or append)
+			pth := f[len(f)-1]
+			ops = append(ops, "write:"+area(pth)+":"+filepath.Base(pth))
 		}
 	}
 	if len(ops) == 0 {
